@@ -378,6 +378,11 @@ func (i *OttoActionInterpreter) GetThunk(ctx *Context, loc *Location, bs Binding
 				"action", a, "CodeProps", nil)
 		}
 
+		// The action works on this location, whatever location the
+		// context was used for last.
+		if ctx != nil {
+			ctx.SetLoc(loc)
+		}
 		v, err := RunJavascript(ctx, bs.StripQuestionMarks(ctx), props, script)
 		if err != nil {
 			// Don't know if this error is a user error.
@@ -449,6 +454,11 @@ func (loc *Location) getActionFunc(ctx *Context, bs Bindings, a Action) (func() 
 					"action", a, "CodeProps", nil)
 			}
 
+			// The action works on this location, whatever
+			// location the context was used for last.
+			if ctx != nil {
+				ctx.SetLoc(loc)
+			}
 			v, err := RunJavascript(ctx, bs.StripQuestionMarks(ctx), props, script)
 			if err != nil {
 				// Don't know if this error is a user error.
